@@ -68,7 +68,7 @@ func checkRoleTable(c *Ctx, rule, key, text string, got map[string]string, errs 
 	}
 	sort.Strings(keys)
 	for _, k := range keys {
-		if got[k] != want[k] {
+		if !termEq(got[k], want[k]) {
 			diffs = append(diffs, fmt.Sprintf("%s: got %s, spec %s", k, got[k], want[k]))
 		}
 	}
@@ -170,7 +170,7 @@ func runC14(c *Ctx) {
 
 	// ---- R4 reads
 	ob = c.Obl("R4", "transports/obfs2:(*obfs2Conn).handshake#exact-reads", "the handshake consumes exactly seed[16], header[8] and padding[PADLEN] with one io.ReadFull each, outside any loop, in that order: independent of segmentation and without swallowing data that follows the padding")
-	rfs := p.CallsIn(hs, "io.ReadFull")
+	rfs := p.ReadFullsIn(hs)
 	bad = ""
 	var lens []string
 	for _, rf := range rfs {
